@@ -44,7 +44,7 @@ def wav(ch, body, pre=b"", rf64=False, bits=24, ba=None, total=None):
 
 def _at600(hdr_len, tail, total=None):
     """a data-chunk body such that the file holds `tail` from absolute offset 600 on"""
-    return bytes(START - hdr_len) + tail
+    return bytes((7 * i + 1) & 0xFF for i in range(START - hdr_len)) + tail      # a recognisable run in front: a read that starts elsewhere shows
 
 
 FLOATG = bytes([1, 0, 0, 0x44])
